@@ -1,0 +1,42 @@
+//go:build verif
+
+// Accessors for the verification harness in /verif (build tag "verif").
+package dclient
+
+import (
+	"context"
+	"net"
+	"time"
+
+	vy "git.sr.ht/~adrian-blx/psa-dhcp/lib/client/verify"
+	"git.sr.ht/~adrian-blx/psa-dhcp/lib/dhcpmsg"
+	"git.sr.ht/~adrian-blx/psa-dhcp/lib/libif"
+)
+
+type Dclient = dclient
+
+func (dx *dclient) VerifState() int { return dx.state }
+func (dx *dclient) VerifDeadlines() (time.Time, time.Time, time.Time) {
+	return dx.boundDeadlines.t1, dx.boundDeadlines.t2, dx.boundDeadlines.tx
+}
+func (dx *dclient) VerifSetLast(m dhcpmsg.Message, o dhcpmsg.DecodedOptions) {
+	dx.lastMsg = m
+	dx.lastOpts = o
+}
+func (dx *dclient) VerifBuildNetconfig() libif.Ifconfig { return dx.buildNetconfig() }
+
+// VerifCatchReply runs catchReply; result 0 = error other than NAK, 1 = passed, 2 = NAK.
+func VerifCatchReply(ctx context.Context, iface *net.Interface, vrfy func(dhcpmsg.Message, dhcpmsg.DecodedOptions) vy.State) (dhcpmsg.Message, dhcpmsg.DecodedOptions, int) {
+	m, o, err := catchReply(ctx, iface, vrfy)
+	switch err {
+	case nil:
+		return m, o, 1
+	case errWasNack:
+		return m, o, 2
+	}
+	return m, o, 0
+}
+
+func VerifSendMessage(ctx context.Context, iface *net.Interface, sender func() ([]byte, net.IP, net.IP)) error {
+	return sendMessage(ctx, iface, sender)
+}
